@@ -35,6 +35,10 @@ fn meta(ctx: &Ctx) -> EvidenceMeta {
 pub enum Op {
     Add(u8),
     Del(u8),
+    /// change a non-identity attribute (debug name) of the k-th item through get_mut
+    Touch(u8),
+    /// delete by key (name / module+name) through the collection's remove-by-name API
+    Remove(u8),
 }
 
 fn quiet<T>(f: impl FnOnce() -> T) -> Option<T> {
@@ -58,6 +62,21 @@ trait Coll {
     fn get(&self, id: Self::Id) -> Option<Self::Val>;
     fn iter(&self) -> Vec<(Self::Id, Self::Val)>;
     fn len(&self) -> Option<usize> {
+        None
+    }
+    /// set a debug attribute that is not part of the item's identity
+    fn touch(&mut self, _id: Self::Id) {}
+    /// remove-by-key API: None = the collection has none; Some(true) = it
+    /// reported success; Some(false) = it reported "not found"
+    fn remove_by_key(&mut self, _v: &Self::Val) -> Option<bool> {
+        None
+    }
+    /// do two values share the key used by remove_by_key?
+    fn same_key(_a: &Self::Val, _b: &Self::Val) -> bool {
+        false
+    }
+    /// ids yielded by the mutable iterator, if the collection has one
+    fn iter_mut_ids(&mut self) -> Option<Vec<Self::Id>> {
         None
     }
     /// collection-specific lookups compared with the model's live items
@@ -116,6 +135,36 @@ fn run_seq<C: Coll>(ops: &[Op]) -> Result<bool, Failure> {
                     }
                 }
             }
+            Op::Touch(k) => {
+                let k = *k as usize;
+                if k >= items.len() || items[k].1.is_none() {
+                    continue;
+                }
+                let id = items[k].0;
+                if quiet(|| c.touch(id)).is_none() {
+                    return Err(fail("touch-panicked", format!("step {}: get_mut of live id {:?} panicked", step, id)));
+                }
+            }
+            Op::Remove(vi) => {
+                let v = pool[*vi as usize % pool.len()].clone();
+                let want = items.iter().position(|(_, x)| x.as_ref().map(|x| C::same_key(x, &v)).unwrap_or(false));
+                match quiet(|| c.remove_by_key(&v)) {
+                    None => return Err(fail("remove-panicked", format!("step {}: remove({:?})", step, v))),
+                    Some(None) => continue,
+                    Some(Some(reported)) => {
+                        if reported != want.is_some() {
+                            return Err(fail(
+                                "remove-by-key-verdict",
+                                format!("step {}: remove({:?}) reported {}, model has {:?}", step, v, reported, want),
+                            ));
+                        }
+                        if let Some(p) = want {
+                            items[p].1 = None;
+                            deleted_live = true;
+                        }
+                    }
+                }
+            }
             Op::Del(k) => {
                 let k = *k as usize;
                 if k >= items.len() {
@@ -141,7 +190,7 @@ fn run_seq<C: Coll>(ops: &[Op]) -> Result<bool, Failure> {
         // id could alias them), right after their own deletion and at the
         // end; a delete of another id cannot make them resolve again without
         // also showing up in the iteration compared below.
-        let probe_dead = matches!(op, Op::Add(_)) || step + 1 == ops.len();
+        let probe_dead = matches!(op, Op::Add(_) | Op::Remove(_)) || step + 1 == ops.len();
         let just_deleted = match op {
             Op::Del(k) => Some(*k as usize),
             _ => None,
@@ -169,6 +218,15 @@ fn run_seq<C: Coll>(ops: &[Op]) -> Result<bool, Failure> {
                 "iter-mismatch",
                 format!("step {}: iter yields {:?}, model's live items in creation order are {:?}", step, it, live),
             ));
+        }
+        if let Some(ids) = quiet(|| c.iter_mut_ids()).ok_or_else(|| fail("iter_mut-panicked", format!("step {}", step)))? {
+            let want: Vec<C::Id> = live.iter().map(|(i, _)| *i).collect();
+            if ids != want {
+                return Err(fail(
+                    "iter_mut-mismatch",
+                    format!("step {}: iter_mut yields {:?}, live ids are {:?}", step, ids, want),
+                ));
+            }
         }
         if let Some(n) = quiet(|| c.len()).ok_or_else(|| fail("len-panicked", format!("step {}", step)))? {
             if n != live.len() {
@@ -204,6 +262,9 @@ impl Coll for Types {
     }
     fn dedup(&self) -> bool {
         true
+    }
+    fn touch(&mut self, id: TypeId) {
+        self.0.types.get_mut(id).name = Some(format!("named{}", id.index()));
     }
     fn add(&mut self, v: &Self::Val) -> Result<TypeId, ()> {
         quiet(|| self.0.types.add(&v.0, &v.1)).ok_or(())
@@ -292,6 +353,15 @@ impl Coll for Exports {
     }
     fn delete(&mut self, id: ExportId) -> bool {
         quiet(|| self.m.exports.delete(id)).is_some()
+    }
+    fn remove_by_key(&mut self, v: &Self::Val) -> Option<bool> {
+        Some(self.m.exports.remove(&v.0).is_ok())
+    }
+    fn same_key(a: &Self::Val, b: &Self::Val) -> bool {
+        a.0 == b.0
+    }
+    fn iter_mut_ids(&mut self) -> Option<Vec<ExportId>> {
+        Some(self.m.exports.iter_mut().map(|e| e.id()).collect())
     }
     fn get(&self, id: ExportId) -> Option<Self::Val> {
         quiet(|| {
@@ -402,6 +472,15 @@ impl Coll for Imports {
     }
     fn delete(&mut self, id: ImportId) -> bool {
         quiet(|| self.m.imports.delete(id)).is_some()
+    }
+    fn remove_by_key(&mut self, v: &Self::Val) -> Option<bool> {
+        Some(self.m.imports.remove(&v.0, &v.1).is_ok())
+    }
+    fn same_key(a: &Self::Val, b: &Self::Val) -> bool {
+        a.0 == b.0 && a.1 == b.1
+    }
+    fn iter_mut_ids(&mut self) -> Option<Vec<ImportId>> {
+        Some(self.m.imports.iter_mut().map(|e| e.id()).collect())
     }
     fn get(&self, id: ImportId) -> Option<Self::Val> {
         quiet(|| {
@@ -529,6 +608,9 @@ impl Coll for Memories {
     fn delete(&mut self, id: MemoryId) -> bool {
         quiet(|| self.0.memories.delete(id)).is_some()
     }
+    fn iter_mut_ids(&mut self) -> Option<Vec<MemoryId>> {
+        Some(self.0.memories.iter_mut().map(|e| e.id()).collect())
+    }
     fn get(&self, id: MemoryId) -> Option<Self::Val> {
         quiet(|| {
             let g = self.0.memories.get(id);
@@ -564,6 +646,9 @@ impl Coll for Tables {
     }
     fn delete(&mut self, id: TableId) -> bool {
         quiet(|| self.0.tables.delete(id)).is_some()
+    }
+    fn iter_mut_ids(&mut self) -> Option<Vec<TableId>> {
+        Some(self.0.tables.iter_mut().map(|e| e.id()).collect())
     }
     fn get(&self, id: TableId) -> Option<Self::Val> {
         quiet(|| {
@@ -642,6 +727,9 @@ impl Coll for Elems {
     }
     fn delete(&mut self, id: ElementId) -> bool {
         quiet(|| self.0.elements.delete(id)).is_some()
+    }
+    fn iter_mut_ids(&mut self) -> Option<Vec<ElementId>> {
+        Some(self.0.elements.iter_mut().map(|e| e.id()).collect())
     }
     fn get(&self, id: ElementId) -> Option<u8> {
         quiet(|| {
@@ -724,6 +812,13 @@ impl Coll for Funcs {
     fn delete(&mut self, id: FunctionId) -> bool {
         quiet(|| self.m.funcs.delete(id)).is_some()
     }
+    fn iter_mut_ids(&mut self) -> Option<Vec<FunctionId>> {
+        let all: Vec<FunctionId> = self.m.funcs.iter_mut().map(|e| e.id()).collect();
+        let locals_mut: Vec<FunctionId> = self.m.funcs.iter_local_mut().map(|(i, _)| i).collect();
+        let locals: Vec<FunctionId> = self.m.funcs.iter_local().map(|(i, _)| i).collect();
+        assert_eq!(locals_mut, locals, "iter_local_mut and iter_local disagree");
+        Some(all)
+    }
     fn get(&self, id: FunctionId) -> Option<Self::Val> {
         quiet(|| {
             let f = self.m.funcs.get(id);
@@ -794,6 +889,22 @@ impl Coll for Customs {
         let u = self.ids[id];
         matches!(quiet(|| self.m.customs.delete(u)), Some(Some(_)))
     }
+    fn remove_by_key(&mut self, v: &Self::Val) -> Option<bool> {
+        Some(self.m.customs.remove_raw(&v.0).is_some())
+    }
+    fn same_key(a: &Self::Val, b: &Self::Val) -> bool {
+        a.0 == b.0
+    }
+    fn iter_mut_ids(&mut self) -> Option<Vec<usize>> {
+        let ids = self.ids.clone();
+        Some(
+            self.m
+                .customs
+                .iter_mut()
+                .map(|(u, _)| ids.iter().position(|x| *x == u).unwrap_or(usize::MAX))
+                .collect(),
+        )
+    }
     fn get(&self, id: usize) -> Option<Self::Val> {
         let u = self.ids[id];
         quiet(|| {
@@ -858,6 +969,8 @@ fn ops_to_json(coll: &str, ops: &[Op]) -> serde_json::Value {
     json!({"collection": coll, "ops": ops.iter().map(|o| match o {
         Op::Add(v) => format!("add:{}", v),
         Op::Del(k) => format!("del:{}", k),
+        Op::Touch(k) => format!("touch:{}", k),
+        Op::Remove(k) => format!("remove:{}", k),
     }).collect::<Vec<_>>()})
 }
 
@@ -868,7 +981,12 @@ fn ops_from_json(v: &serde_json::Value) -> Option<(String, Vec<Op>)> {
         let s = o.as_str()?;
         let (k, n) = s.split_once(':')?;
         let n: u8 = n.parse().ok()?;
-        ops.push(if k == "add" { Op::Add(n) } else { Op::Del(n) });
+        ops.push(match k {
+            "add" => Op::Add(n),
+            "touch" => Op::Touch(n),
+            "remove" => Op::Remove(n),
+            _ => Op::Del(n),
+        });
     }
     Some((coll, ops))
 }
@@ -882,10 +1000,11 @@ fn decode_choices(bytes: &[u8]) -> (String, Vec<Op>) {
         if ch.exhausted() {
             break;
         }
-        if ch.chance(3, 5) {
-            ops.push(Op::Add(ch.below(6) as u8));
-        } else {
-            ops.push(Op::Del(ch.below(24) as u8));
+        match ch.below(10) {
+            0..=4 => ops.push(Op::Add(ch.below(6) as u8)),
+            5..=7 => ops.push(Op::Del(ch.below(24) as u8)),
+            8 => ops.push(Op::Touch(ch.below(24) as u8)),
+            _ => ops.push(Op::Remove(ch.below(6) as u8)),
         }
     }
     (coll, ops)
@@ -927,8 +1046,9 @@ fn enumerate(len: usize, cur: &mut Vec<Op>, alphabet: &[Op], f: &mut dyn FnMut(&
 }
 
 fn run(ctx: &Ctx) {
-    // exhaustive part
-    let alphabet = [
+    // exhaustive part: per-collection alphabets (collections with a debug
+    // name get touch ops, collections with remove-by-name get remove ops)
+    let base = vec![
         Op::Add(0),
         Op::Add(1),
         Op::Add(2),
@@ -938,14 +1058,34 @@ fn run(ctx: &Ctx) {
         Op::Del(3),
     ];
     let max_len = ctx.tier.pick(6, 7);
-    let mut seqs: Vec<Vec<Op>> = Vec::new();
-    enumerate(max_len, &mut vec![], &alphabet, &mut |s| seqs.push(s.to_vec()));
-    ctx.set_extra(
-        "exhaustive_part",
-        json!({"alphabet": 7, "max_len": max_len, "sequences_per_collection": seqs.len(), "collections": COLLECTIONS}),
-    );
+    let mut work: Vec<(&'static str, Vec<Op>)> = Vec::new();
+    let mut per_coll = serde_json::Map::new();
+    for coll in COLLECTIONS {
+        let mut alphabet = base.clone();
+        let mut len = max_len;
+        match *coll {
+            "types" => {
+                alphabet.push(Op::Touch(0));
+                alphabet.push(Op::Touch(1));
+                len -= 1;
+            }
+            "exports" | "imports" | "customs" => {
+                alphabet.push(Op::Remove(0));
+                alphabet.push(Op::Remove(1));
+                len -= 1;
+            }
+            _ => {}
+        }
+        let before = work.len();
+        enumerate(len, &mut vec![], &alphabet, &mut |s| work.push((*coll, s.to_vec())));
+        per_coll.insert(
+            coll.to_string(),
+            json!({"alphabet": alphabet.len(), "max_len": len, "sequences": work.len() - before}),
+        );
+    }
+    ctx.set_extra("exhaustive_part", serde_json::Value::Object(per_coll));
+    let total = work.len();
     let next = std::sync::atomic::AtomicUsize::new(0);
-    let total = seqs.len() * COLLECTIONS.len();
     std::thread::scope(|s| {
         for _ in 0..16 {
             s.spawn(|| {
@@ -959,8 +1099,8 @@ fn run(ctx: &Ctx) {
                         break;
                     }
                     for j in i..(i + 1024).min(total) {
-                        let coll = COLLECTIONS[j / seqs.len()];
-                        let ops = &seqs[j % seqs.len()];
+                        let coll = work[j].0;
+                        let ops = &work[j].1;
                         let h = fnv(format!("{}{:?}", coll, ops).as_bytes());
                         match dispatch(coll, ops) {
                             Ok(nontrivial) => {
